@@ -54,6 +54,13 @@ def _key_and_detail(cx, o, rec):
     if o["kind"] == "expr":
         r = o["s"] if clause.endswith("string") else o["c"] if clause.endswith("convert") else o["a"]
         return {"part": "expr", "clause": clause, "expr": o.get("text", "")}, {"observed": r.get("bv"), "product_of_constituents": o.get("want"), "exc": r.get("exc"), "tlc": rec["detail"]}
+    if o["kind"] == "edit":
+        sym = data["table"][o["t"] - 1]["sym"]
+        d = rec["detail"] if isinstance(rec["detail"], dict) else {}
+        ph = o["phases"][d.get("phase", 1) - 1]
+        p = ph["probes"][d["k"] - 1] if "k" in d else {}
+        return ({"part": "edit", "clause": clause, "sym": sym, "op": ph["op"] if d.get("phase", 1) == 1 else o["op"] + "+modify", "spelling": d.get("spelling", ""), "warm": bool(d.get("warm", False)), "text": p.get("text", "")},
+                {"base_value": p.get("bv"), "current_definition_implies": p.get("want"), "eu": p.get("eu"), "to_symbol": p.get("tosym"), "via_si": p.get("via"), "exc": p.get("exc"), "warm_before_edit": o["w"]})
     if o["kind"] == "ord":
         sym = data["table"][o["t"] - 1]["sym"]
         j = rec["detail"].get("step", 1) if isinstance(rec["detail"], dict) else 1
@@ -253,7 +260,24 @@ def run(ck):
                         "toks": more["bases"][x["b"] - 1], "names": pnames, "coefs": more["coefs"], "exps": more["exps"]})
         return out
 
-    jobs = {"all": gen_all, "more": gen_more, "expr3": gen_expr3, "exprsim": gen_exprsim,
+    def gen_edit():
+        rowmod = ck.q(2, 1)
+        cfg = _cfg(ck, "MC_C02_edit", "MC_C02_edit_run", {"RowMod": rowmod, "RowSel": ck.seed % rowmod})
+        r = ck.tlc("MC_C02_edit", cfg, env={ENV: cx.path}, workers=1, timeout=3000, required_actions=["Next"],
+                   label=f"edits (modify / add over / remove, optional second modify) of default symbols with aliases (1 of {rowmod}), memo cold / warm for all / for one spelling; every spelling + kilo forms + squares probed after")
+        out = []
+        for x in r.by_tag("EDIT"):
+            c = dict(x)
+            c.pop("tag")
+            c["kind"] = "edit"
+            c["sym"] = data["table"][x["t"] - 1]["sym"]
+            c["names"] = {str(n): data["names"][n - 1]["name"] for n in x["spell"] + x["kilo"]}
+            out.append(c)
+        if len(out) < 100:
+            raise MachineryFailure("too few edit cases")
+        return out
+
+    jobs = {"all": gen_all, "more": gen_more, "edit": gen_edit, "expr3": gen_expr3, "exprsim": gen_exprsim,
             "reg": gen_reg("MC_C02_reg_t" if thorough else "MC_C02_reg", "user registries: histories <= 3 calls (define_unit tuple/quantity, add, modify) over 2 registries x unit systems, one witness per state"),
             "regqux": gen_reg("MC_C02_reg_qux", "user registries: symbol qux defined over user symbol foo, then foo modified; histories <= 3")}
     if thorough:
@@ -316,6 +340,9 @@ def run(ck):
     counts["order_sequences"] = sum(1 for c in done["more"] if c["kind"] == "ord")
     counts["float_exponent_cases"] = sum(1 for c in done["more"] if c["kind"] == "pow")
     cases += done["more"]
+    counts["edit_cases"] = len(done["edit"])
+    counts["edited_symbols"] = len({c["t"] for c in done["edit"]})
+    cases += done["edit"]
 
     # ---- user registries
     rcases = []
@@ -346,6 +373,7 @@ def run(ck):
     counts["names_not_accepted_by_Unit"] = len(rejected)
     ck.cov["names_not_accepted_sample"] = rejected[:12]
     nontrivial = nontrivial_reg + sum(1 for c, o in byk["name"] if o["ok"]) + sum(1 for c, o in byk["pfx"] if o["ok"]) + sum(1 for c, o in byk["conv"] if o["ok"] and c["n1"] != c["n2"])
+    nontrivial += sum(1 for c, o in byk["edit"] if o["phases"] and o["phases"][0]["ok"])
     nontrivial += sum(1 for c, o in byk["ord"] if all(st["ok"] for st in o["steps"])) + sum(1 for c, o in byk["pow"] if o["ok"])
     eo = byk["expr"]
     counts["expressions_accepted_string"] = sum(1 for c, o in eo if o["s"]["ok"])
